@@ -8,3 +8,7 @@ def run(ctx):
 
 def replay(ctx, path):
     return sched_check.replay(ctx, 'C02', path)
+
+
+def selftest(ctx):
+    return sched_check.selftest(ctx, 'C02')
